@@ -12,7 +12,7 @@ import sys
 VERIF = os.path.dirname(os.path.dirname(os.path.abspath(__file__)))
 
 
-def write_and_run(prop, name, q, oblig, result, run, per_oblig):
+def write_and_run(prop, name, q, oblig, result, run, per_oblig, sim_failure=None):
     os.makedirs(os.path.join(VERIF, 'replay'), exist_ok=True)
     h = hashlib.sha256(name.encode()).hexdigest()[:10]
     path = os.path.join(VERIF, 'replay', '%s-%s.json' % (prop, h))
@@ -22,15 +22,20 @@ def write_and_run(prop, name, q, oblig, result, run, per_oblig):
            'solver': {'result': (result or {}).get('result'), 'backend': (result or {}).get('backend'), 'model': (result or {}).get('model')},
            'repo': run.sources.repo, 'native': None}
     confirmed = False
+    if sim_failure is not None:
+        rec['scenario'] = sim_failure
+        rec['native'] = {'confirmed': True, 'how': 'bounded scenario on the real code: ./check %s --replay %s' % (prop, path)}
+        confirmed = True
     if oblig is None:
         rec['frame_scan_problems'] = [p.get('problems') for p in per_oblig if p['name'] == name]
-    try:
-        from pyvc import native
-        nat = native.try_replay(prop, name, oblig, result, run)
-        rec['native'] = nat
-        confirmed = bool(nat and nat.get('confirmed'))
-    except Exception as e:      # noqa
-        rec['native'] = {'confirmed': False, 'error': repr(e)}
+    if not confirmed:
+        try:
+            from pyvc import native
+            nat = native.try_replay(prop, name, oblig, result, run)
+            rec['native'] = nat
+            confirmed = bool(nat and nat.get('confirmed'))
+        except Exception as e:      # noqa
+            rec['native'] = {'confirmed': False, 'error': repr(e)}
     if not confirmed:
         rec['verdict'] = 'no-failing-input-found: the obligation is refuted by the solver (model above) but no concrete input reproduced it natively'
     else:
@@ -40,8 +45,24 @@ def write_and_run(prop, name, q, oblig, result, run, per_oblig):
     return path, confirmed
 
 
+def write_sim_failure(prop, k, f):
+    os.makedirs(os.path.join(VERIF, 'replay'), exist_ok=True)
+    path = os.path.join(VERIF, 'replay', '%s-sim-%d.json' % (prop, k))
+    with open(path, 'w') as fh:
+        json.dump({'property': prop, 'obligation': 'bounded-stand-in', 'scenario': f, 'verdict': 'failing input found on the real code (bounded stand-in)'},
+                  fh, indent=1, default=repr)
+    return path
+
+
 def main_replay(path):
     rec = json.load(open(path))
+    if rec.get('scenario'):
+        env = dict(os.environ, PYTHONPATH=VERIF)
+        env.setdefault('PYVC_REPO', '/repo')
+        p = subprocess.run(['/venv/bin/python', '-m', 'sim.run', '--replay', path], cwd=VERIF, env=env, capture_output=True, text=True)
+        print(p.stdout[-3000:])
+        print(p.stderr[-1000:])
+        return 1 if 'REPLAY-VIOLATION' in p.stdout else 0
     print(json.dumps({k: rec[k] for k in ('property', 'obligation', 'claim', 'where', 'verdict')}, indent=1))
     nat = rec.get('native') or {}
     if nat.get('script'):
